@@ -1,0 +1,39 @@
+//go:build verif
+
+// Machine-checked contracts for package httputil (comment-only; read by /verif/govc).
+// Property C34: every attempt Send makes carries the complete original body.
+//
+// A request body is a one-shot reader; its ghost flag atStart (contracts/externs/nethttp.spec) says
+// it has not been read. http.Client.Do REQUIRES the request it is given to be sendable - no body,
+// or a body at its start - and consumes the body. So every call of Do in this package carries a
+// proof obligation that the body is complete, on every path, including retries and the http
+// fallback.
+
+package httputil
+
+//@ specfunc sendable(req *http.Request) bool = req != nil && (req.Body == nil || req.Body == http.NoBody || req.Body.atStart)
+
+// resetBody: true only if the request can be sent again with its complete body.
+//@ func resetBody
+//@   requires req != nil
+//@   modifies req.Body
+//@   ensures ready: result ==> sendable(req)
+//@   ensures untouched: !result ==> req.Body == old(req.Body)
+
+//@ func newRequest
+//@   requires opts != nil && opts.url != nil
+//@   ensures result1 == nil ==> result0 != nil && result0.URL != nil && sendable(result0)
+
+//@ func fallbackToHTTP
+//@   requires client != nil && sendable(req)
+//@   modifies every io.ReadCloser.atStart
+//@   ensures result1 == nil ==> result0 != nil
+//@   ensures consumed: req.Body != nil && req.Body != http.NoBody ==> !req.Body.atStart
+
+// Send: every client.Do is reached with a sendable request (the obligations are Do's precondition
+// at each call site); success is reported only with a response.
+//@ func Send
+//@   unknown_calls_modify opts.body, opts.httpFallbackDisabled
+//@   modifies *
+//@   ensures result1 == nil ==> result0 != nil
+//@   loop 1 invariant attempt_is_complete: req != nil && req.URL != nil && sendable(req) && opts != nil && client != nil
